@@ -300,7 +300,11 @@ class C:
         return C(self.re, -self.im)
 
     def __abs__(self):
-        return zsqrt(Z.lift(self.re * self.re + self.im * self.im))
+        n2 = self.re * self.re + self.im * self.im
+        from . import apoly
+        if _builtin_isinstance(self.re, apoly.P) or _builtin_isinstance(self.im, apoly.P):
+            return apoly.sqrt(n2) if _builtin_isinstance(n2, apoly.P) else n2 ** 0.5
+        return zsqrt(Z.lift(n2))
 
     def __pow__(self, n):
         if _builtin_isinstance(n, int) and n >= 1:
@@ -314,6 +318,16 @@ class C:
 
     def _cmpc(self, o, f):
         o = C.lift(o)
+        from . import apoly
+        if any(_builtin_isinstance(v, apoly.P) for v in (self.re, self.im, o.re, o.im)):
+            # A-scalar parts: only (dis)equality is ever asked; P's own comparison returns bool or SymBool
+            a = (self.re == o.re)
+            b = (self.im == o.im)
+            if a is False or b is False:
+                return SymBool(z3.BoolVal(False))
+            ta = z3.BoolVal(True) if a is True else a.t
+            tb = z3.BoolVal(True) if b is True else b.t
+            return SymBool(z3.And(ta, tb))
         a = Z.lift(self.re)
         b = Z.lift(self.im)
         return SymBool(z3.And(f(a.t, Z.lift(o.re).t), f(b.t, Z.lift(o.im).t)))
